@@ -162,6 +162,14 @@ pub fn ebpf_object_path() -> PathBuf {
     PathBuf::from(t).join("ebpf/ebpf_cgroup.o")
 }
 
+fn start_core_after(_f: impl Fn(), opts: &WorldOpts, w: &mut World) -> Core {
+    // the old listener must be gone before the new one binds: shut the old runtime down first
+    let placeholder = tokio::runtime::Builder::new_current_thread().build().unwrap();
+    let old = std::mem::replace(&mut w.rt, placeholder);
+    old.shutdown_timeout(Duration::from_millis(500));
+    start_core(opts)
+}
+
 pub struct Hosts {
     pub ws: MockHost,
     pub hostga: MockHost,
@@ -211,6 +219,48 @@ impl Default for WorldOpts {
     }
 }
 
+struct Core {
+    rt: tokio::runtime::Runtime,
+    shared: SharedState,
+    bpf: Arc<std::sync::Mutex<BpfObject>>,
+    audit: RawMap,
+    policy: RawMap,
+    skip: RawMap,
+}
+
+fn start_core(opts: &WorldOpts) -> Core {
+    let rt = tokio::runtime::Builder::new_multi_thread().worker_threads(opts.worker_threads).thread_name("subject").enable_all().build().unwrap();
+    let obj = ebpf_object_path();
+    let bpf = match BpfObject::from_ebpf_file(&obj) {
+        Ok(b) => b,
+        Err(e) => vcommon::result::machinery(&format!("cannot load {}: {e}", obj.display())),
+    };
+    let audit = RawMap { fd: map_fd(&bpf, "audit_map"), key_size: 8, value_size: 20 };
+    let policy = RawMap { fd: map_fd(&bpf, "policy_map"), key_size: 24, value_size: 24 };
+    let skip = RawMap { fd: map_fd(&bpf, "skip_process_map"), key_size: 4, value_size: 4 };
+    let bpf = Arc::new(std::sync::Mutex::new(bpf));
+    let shared = rt.block_on(async { SharedState::start_all() });
+    rt.block_on(async {
+        let r = shared.get_redirector_shared_state();
+        r.update_bpf_object(bpf.clone()).await.unwrap();
+        r.set_local_port(constants::PROXY_AGENT_PORT).await.unwrap();
+    });
+    let server = ProxyServer::new(constants::PROXY_AGENT_PORT, &shared);
+    rt.spawn(async move { server.start().await });
+    let mut ok = false;
+    for _ in 0..800 {
+        if std::net::TcpStream::connect(PROXY).is_ok() {
+            ok = true;
+            break;
+        }
+        std::thread::sleep(Duration::from_millis(10));
+    }
+    if !ok {
+        vcommon::result::machinery("proxy listener did not come up on 127.0.0.1:3080");
+    }
+    Core { rt, shared, bpf, audit, policy, skip }
+}
+
 impl World {
     pub fn start(opts: WorldOpts) -> World {
         use proxy_agent_shared::logger::{logger_manager, rolling_logger::RollingLogger};
@@ -229,42 +279,23 @@ impl World {
             logger_manager::set_loggers(loggers, crate::common::logger::AGENT_LOGGER_KEY.to_string());
         }
         let hosts = Hosts::start();
-        let rt = tokio::runtime::Builder::new_multi_thread()
-            .worker_threads(opts.worker_threads)
-            .thread_name("subject")
-            .enable_all()
-            .build()
-            .unwrap();
-        let obj = ebpf_object_path();
-        let bpf = match BpfObject::from_ebpf_file(&obj) {
-            Ok(b) => b,
-            Err(e) => vcommon::result::machinery(&format!("cannot load {}: {e}", obj.display())),
-        };
-        let audit = RawMap { fd: map_fd(&bpf, "audit_map"), key_size: 8, value_size: 20 };
-        let policy = RawMap { fd: map_fd(&bpf, "policy_map"), key_size: 24, value_size: 24 };
-        let skip = RawMap { fd: map_fd(&bpf, "skip_process_map"), key_size: 4, value_size: 4 };
-        let bpf = Arc::new(std::sync::Mutex::new(bpf));
-        let shared = rt.block_on(async { SharedState::start_all() });
-        rt.block_on(async {
-            let r = shared.get_redirector_shared_state();
-            r.update_bpf_object(bpf.clone()).await.unwrap();
-            r.set_local_port(constants::PROXY_AGENT_PORT).await.unwrap();
-        });
-        let server = ProxyServer::new(constants::PROXY_AGENT_PORT, &shared);
-        rt.spawn(async move { server.start().await });
-        // wait for the listener
-        let mut ok = false;
-        for _ in 0..200 {
-            if std::net::TcpStream::connect(PROXY).is_ok() {
-                ok = true;
-                break;
-            }
-            std::thread::sleep(Duration::from_millis(10));
-        }
-        if !ok {
-            vcommon::result::machinery("proxy listener did not come up on 127.0.0.1:3080");
-        }
-        World { rt, shared, hosts, bpf, audit, policy, skip, children: Mutex::new(Vec::new()) }
+        let c = start_core(&opts);
+        World { rt: c.rt, shared: c.shared, hosts, bpf: c.bpf, audit: c.audit, policy: c.policy, skip: c.skip, children: Mutex::new(Vec::new()) }
+    }
+
+    /// throw the subject away (all tasks, actors, listener) and start a fresh one; mock hosts and
+    /// helper processes stay
+    pub fn restart_subject(&mut self, opts: &WorldOpts) {
+        self.shared.cancel_cancellation_token();
+        std::thread::sleep(Duration::from_millis(20));
+        let c = start_core_after(|| {}, opts, self);
+        self.shared = c.shared;
+        self.bpf = c.bpf;
+        self.audit = c.audit;
+        self.policy = c.policy;
+        self.skip = c.skip;
+        let old = std::mem::replace(&mut self.rt, c.rt);
+        old.shutdown_background();
     }
 
     pub fn inject_audit(&self, sport: u16, rec: &AuditRec) {
